@@ -99,6 +99,8 @@ def mutate(fr, mut):
             new = ["NEW", "", (str(lv_[0]) + "zz" if lv_ else "azz"), "N"][mut["pick"] % 4]
         pos = {p % n for p in mut["rows"]} or {0}
         c["values"] = [new if i in pos else v for i, v in enumerate(c["values"])]
+        if isinstance(new, float) and c["dtype"] in ("int64", "Int64"):
+            c["dtype"] = "float64"  # (an integer dtype would truncate the fractional value into a known level)
         if c["dtype"] == "category":
             c["categories"] = list(c["categories"]) + [new]
     elif kind == "unseen-declared":
